@@ -4,8 +4,9 @@
 ProgsDef == <<
  [passctx |-> TRUE, tmpls |-> <<
    [uri |-> <<"a", "-", "b", ".", "html">>, targs |-> <<<<"type", "s:memory">>>>, bf |-> FALSE, en0 |-> TRUE, inh |-> 0, isbase |-> FALSE,
-    page |-> [cached |-> FALSE, key |-> "static", pfx |-> "", args |-> <<<<"timeout", "s:7">>>>, parg |-> "",
-              items |-> <<[sec |-> 1, arg |-> "A", tm |-> 0, how |-> "call"]>>],
+    page |-> [cached |-> FALSE, key |-> "static", pfx |-> "", args |-> <<<<"timeout", "s:7">>>>, sig |-> <<>>, kp |-> 0,
+              items |-> <<[sec |-> 1, pos |-> <<"A">>, kw |-> <<>>, tm |-> 0, how |-> "call"]>>],
     secs |-> <<[name |-> "foo", kind |-> "def", cached |-> TRUE, key |-> "static", pfx |-> "",
-                args |-> <<<<"timeout", "s:34">>>>, buf |-> FALSE, filt |-> FALSE, items |-> <<>>]>>] >>] >>
+                args |-> <<<<"timeout", "s:34">>>>, buf |-> FALSE, filt |-> FALSE,
+                sig |-> <<[n |-> "x", k |-> "pos", d |-> ""]>>, kp |-> 0, items |-> <<>>]>>] >>] >>
 =============================================================================
